@@ -6,6 +6,16 @@ VERIF = os.path.dirname(os.path.dirname(os.path.abspath(__file__)))
 
 # id -> (category, technique, level text, level note, design ref)
 CHECKS = {
+    "C07": ("model_checking",
+            "TLA+ spec Typegraph.tla/TypegraphOps.tla (API as actions, SolverRef as least fixed point) explored by TLC; every distinct graph state built in a real cfg.Program and queried; observed answers judged by TLC (TraceC07.tla) against the four clauses",
+            "TLC enumerates every typegraph within the stated bounds (four exhaustive families: acyclic/cyclic, with/without conditions, source sets up to 2) and draws larger random graphs with -simulate; every graph is rebuilt in the real solver and every query (node, goal set <= 3) is judged by the declarative SolverRef evaluated by TLC: exact on acyclic unconditioned graphs, completeness under conditions, reachability and subset closure everywhere.",
+            "Trusted: TLC, the JSON bridge, Built() (canonical construction order). SolverRef agreed with the unmodified solver on all acyclic graphs explored. Violations of clauses 3/4 on cyclic graphs are attributed to one documented root cause (known finding).",
+            "DESIGN.md section 6, C07"),
+    "C08": ("model_checking",
+            "Histories (behaviours of Typegraph.tla incl. Query and paste operations) from TLC exhaustive search, per-transition export and -simulate, executed on a long-lived cfg.Program with a fresh replica per query; TraceC08.tla advances the spec by its own actions and judges each query",
+            "Every history of the tiny model, every transition of a larger state graph (build, warm caches, operate, re-ask everything) and long simulated histories are executed on the real Program; each query is compared with a freshly built replica, with earlier identical queries, and (acyclic, unconditioned) with SolverRef; solver-instance counts expose missing cache invalidation.",
+            "Trusted: TLC, the replica construction (same mutators in the same order in a fresh Program). Spec-vs-code state conformance is logged as divergence, not verdict.",
+            "DESIGN.md section 6, C08"),
     "C09": ("model_checking",
             "TLA+ spec Reach.tla model-checked by TLC (exhaustive, W=2); spec histories replayed on cfg.Program; recorded is_reachable rows trace-validated by TLC (TraceReach.tla)",
             "Exhaustive TLC state graph of the bucketed reachability matrix (all histories of <=5 nodes, W=2) proves the algorithm equal to declarative reachability; every maximal history of the 4-node model and long spec-generated histories spanning several 64-bit buckets are executed on the real Program and every recorded row is validated by TLC against the spec state.",
@@ -15,7 +25,7 @@ CHECKS = {
 
 NOT_APPLICABLE = {}
 
-PENDING = ["C01", "C02", "C03", "C04", "C05", "C06", "C07", "C08", "C10", "C11", "C12", "C13",
+PENDING = ["C01", "C02", "C03", "C04", "C05", "C06", "C10", "C11", "C12", "C13",
            "C14", "C15", "C16", "C17", "C18", "C19", "C20"]
 
 
